@@ -106,14 +106,18 @@ def run_tlc(module, cfg, name, workers=8, timeout=1800, env_extra=None, java_opt
     env = dict(os.environ)
     if env_extra:
         env.update(env_extra)
-    if java_opts:
-        env["JAVA_TOOL_OPTIONS"] = java_opts
+    # TLC / SANY leave tlc-* and SANY* directories in java.io.tmpdir: keep them in a scratch directory that is removed
+    jtmp = meta + "-tmp"
+    shutil.rmtree(jtmp, ignore_errors=True)
+    os.makedirs(jtmp, exist_ok=True)
+    env["JAVA_TOOL_OPTIONS"] = ((java_opts + " ") if java_opts else "") + "-Djava.io.tmpdir=" + jtmp
     cmd = ["timeout", str(timeout), "tlc", "-workers", str(workers), "-metadir", meta, "-cleanup",
            "-noGenerateSpecTE", "-config", cfg] + list(extra) + [module]
     t0 = time.time()
     r = subprocess.run(cmd, cwd=cwd, env=env, capture_output=True, text=True)
     wall = time.time() - t0
     shutil.rmtree(meta, ignore_errors=True)
+    shutil.rmtree(jtmp, ignore_errors=True)
     out = r.stdout + r.stderr
     m = None
     for m in _TLC_STATS.finditer(out):
